@@ -8,6 +8,7 @@ use crate::lib_build::*;
 use crate::monitors::c02::{cmp_e, sh_dims};
 use crate::refmodel::*;
 use crate::rng::Rng;
+use neurons::tensor::Tensor;
 
 pub struct C11;
 
@@ -23,7 +24,7 @@ impl Monitor for C11 {
         vec![("blocks", tier.pick(160 * 2000, 160 * 40_000))]
     }
     fn rule(&self) -> &'static str {
-        "case i -> (flat | spatial block) x loops L in 1..4 x input-skips x output-skips x accumulation in {add, subtract, multiply, mean, overwrite} (the 160-point grid is walked completely, 40+ times), body of 1..3 random shape-preserving layers (dense; 'same' convolutions incl. dilation 2, size-preserving deconvolutions, deconvolution+max-pool pairs), the block placed first / after a layer of matching representation / before a dense layer (flattened output) / last; repetition-free weights in [-1,1]; Network::predict is compared with the reference block (L-fold application with shared weights, repetition r>1 fed combine(previous output, block input), output = combine(last, earlier outputs)) within the running f32 error bound. Distinct = distinct configuration descriptors."
+        "case i -> (flat | spatial block) x loops L in 1..4 x input-skips x output-skips x accumulation in {add, subtract, multiply, mean, overwrite} (the 160-point grid is walked completely, 40+ times), body of 1..3 random shape-preserving layers (dense; 'same' convolutions incl. dilation 2, size-preserving deconvolutions, deconvolution+max-pool pairs), the block placed first / after a layer of matching representation / before a dense layer (flattened output) / last; repetition-free weights in [-1,1]; Network::predict is compared with the reference block (L-fold application with shared weights, repetition r>1 fed combine(previous output, block input), output = combine(last, earlier outputs)) within the running f32 error bound. Every fourth case puts dropout 0.5 on the block's layers and sends the network object through a learn() call with two epochs, after which the installed weights are put back, before predicting: the block must still compute the dropout-free sequence. Distinct = distinct configuration descriptors."
     }
     fn assumptions(&self) -> Vec<&'static str> {
         vec!["reference block semantics written from the property statement (refmodel::block_forward); multiply/subtract/mean over several sources read as a*prod(s), a-sum(s), (a+sum(s))/(1+|s|); overwrite = last source"]
@@ -90,13 +91,52 @@ impl Monitor for C11 {
         let params = gen_params(&cfg, &mut rng, -1.0, 1.0).unwrap();
         let x = random_input(&mut rng, cfg.input);
         let tag = format!("{}:{}{}", acc.name(), if inskips { "in" } else { "" }, if outskips { "out" } else { "" });
-        let net = match build(&cfg, Some(&params)) {
+        // every fourth case: the block's layers carry dropout and the network object has been
+        // through a learn() call (learning rate 0: the weights stay as installed) before it is
+        // asked to predict - the block must still compute the dropout-free repeated sequence
+        let used = (idx / 7) % 4 == 1;
+        let mut lib_cfg = cfg.clone();
+        if used {
+            for l in lib_cfg.layers.iter_mut() {
+                if let LCfg::Feedback { body, .. } = l {
+                    for b in body.iter_mut() {
+                        b.set_dropout(Some(0.5));
+                    }
+                }
+            }
+        }
+        let net = match build(&lib_cfg, Some(&params)) {
             Ok(n) => n,
             Err(m) => {
                 out.viol(&format!("block:create-panic:{}", tag), format!("creating {} panicked: {}", cfg.describe(), short(&m, 200)), case_json(&cfg, &params, &x));
                 return out;
             }
         };
+        let mut net = net;
+        if used {
+            let xin = tensor_of(cfg.input, &x);
+            let n_out = cfg.shapes().unwrap().last().unwrap().1.count();
+            let tt = Tensor::single(vec![0.25; n_out]);
+            net.set_objective(lib_obj(Obj::MSE), None);
+            net.set_optimizer(OptCfg::Sgd { lr: 0.01, decay: None }.build());
+            // validation inside learn() needs a dense output layer
+            let dense_last = matches!(cfg.layers.last(), Some(LCfg::Dense { .. }));
+            let trained = guard(|| {
+                let val = (vec![&xin], vec![&tt]);
+                net.learn(&vec![&xin, &xin], &vec![&tt, &tt], if dense_last { Some((&val.0, &val.1, 100)) } else { None }, 1, 2, None);
+            });
+            if let Err(m) = &trained {
+                // (the backward pass of blocks with internal skips / max-pool bodies is outside this
+                // property)
+                out.cover("used_object_learn_panics", short(m, 60));
+                out.count("used_object_variants_skipped_(learn_panicked)", 1);
+                out.nontrivial = false;
+                return out;
+            }
+            // back to the installed weights: only the object's history differs from a fresh one
+            set_params(&mut net, &params);
+            out.count("predictions_after_a_learn_call_with_dropout_in_the_block", 1);
+        }
         let r: RNet<E> = RNet::plain(&cfg, &params);
         let want = r.forward(&Val::from_f32(cfg.input, &x));
         match guard(|| net.predict(&tensor_of(cfg.input, &x))) {
@@ -126,6 +166,7 @@ impl Monitor for C11 {
     fn finish(&self, _tier: Tier, _seed: u64, agg: &mut Agg) {
         agg.extra.push(("grid_points_covered_of_160".into(), J::Int(agg.set_size("grid") as i64)));
         agg.require(agg.set_size("grid") == 160, format!("grid coverage {} of 160", agg.set_size("grid")));
+        agg.require(agg.count("predictions_after_a_learn_call_with_dropout_in_the_block") >= 2000, "too few predictions on used objects".into());
         agg.require(agg.set_size("positions") == 8, "positions not all exercised".into());
     }
 }
